@@ -119,7 +119,7 @@ class Trace:
         I.type_invariants[BV] = bv_invariant
         I.no_join_bodies.add(self.body["id"])
         I.no_join_prefixes = ("block_handler::BlockHandler",)
-        I.K = 200
+        I.K = 600
         I.cheap_plain_joins = True      # merges of return / overflow states keep common facts only (no relational templates)
         I.extra_models["packet::Packet::to_bytes"] = model_to_bytes
         gargs = (("param", "Endpoint"),)
